@@ -59,7 +59,14 @@ fn run_case(data: Arc<Vec<u8>>, flags: u32, seed: u64, out: Arc<Mutex<std::io::S
             p.extend_from_slice(b".ase");
             std::path::PathBuf::from(std::ffi::OsString::from_vec(p))
         };
-        let _ = std::fs::write(&path, &data[..]);
+        // (a file system that refuses such names gets a plain one)
+        let path = if std::fs::write(&path, &data[..]).is_ok() {
+            path
+        } else {
+            let p = std::env::temp_dir().join(format!("worker-{}.ase", std::process::id()));
+            let _ = std::fs::write(&p, &data[..]);
+            p
+        };
         alloc::open_window(flags & F_DENY != 0);
         alloc::add_delivered(data.len() as u64);
         let res = guarded(|| asefile::AsepriteFile::read_file(&path));
